@@ -16,11 +16,11 @@ func init() {
 func checkC10(p *Prog, r *Report) {
 	ls := BuildLockset(p, "spine", "model")
 	r.Rule("R1", "per-entity registry removals keep an entry ⇔ ¬(client device ∧ client entity equal); client-side clean-ups keep ⇔ ¬device equal (device clean-up) resp. ¬(device ∧ entity equal) (entity clean-up)")
-	applyRetain(p, r, "R1", "spine", "SubscriptionManager", "RemoveSubscriptionsForEntity", retainSpec{Field: "SubscriptionManager.subscriptionEntries",
+	applyRetain(p, r, "R1", "spine", "SubscriptionManager", "RemoveSubscriptionsForEntity", retainSpec{Field: F("SubscriptionManager.subscriptionEntries"),
 		Required: map[string]string{"client.device": "ClientFeature.Device().Ski()|ClientFeature.Address().Device", "client.entity": "ClientFeature.Address().Entity"}})
-	applyRetain(p, r, "R1", "spine", "BindingManager", "RemoveBindingsForEntity", retainSpec{Field: "BindingManager.bindingEntries",
+	applyRetain(p, r, "R1", "spine", "BindingManager", "RemoveBindingsForEntity", retainSpec{Field: F("BindingManager.bindingEntries"),
 		Required: map[string]string{"client.device": "ClientFeature.Device().Ski()|ClientFeature.Address().Device", "client.entity": "ClientFeature.Address().Entity"}})
-	for _, f := range []string{"FeatureLocal.subscriptions", "FeatureLocal.bindings"} {
+	for _, f := range []string{F("FeatureLocal.subscriptions"), F("FeatureLocal.bindings")} {
 		applyRetain(p, r, "R1", "spine", "FeatureLocal", "CleanRemoteDeviceCaches", retainSpec{Field: f, Required: map[string]string{"device": "=Device"}})
 		applyRetain(p, r, "R1", "spine", "FeatureLocal", "CleanRemoteEntityCaches", retainSpec{Field: f, Required: map[string]string{"device": "=Device", "entity": "=Entity"}})
 	}
@@ -31,7 +31,7 @@ func checkC10(p *Prog, r *Report) {
 		if isWrapper(fn) {
 			continue
 		}
-		for _, a := range ls.accessesIn("FeatureLocal.pendingWriteApprovals", fn) {
+		for _, a := range ls.accessesIn(F("FeatureLocal.pendingWriteApprovals"), fn) {
 			del, ok := a.Ins.(*ssa.Call)
 			if !ok || builtinName(&del.Call) != "delete" || !loadsFieldDirect(del.Call.Args[0], a.Field) {
 				continue // only deletions of a whole peer entry (outer map)
@@ -105,7 +105,7 @@ func c10Teardown(p *Prog, ls *Lockset, r *Report) {
 				steps["approval-caches"] = c
 			case calleeIsIfaceMethod(&c.Call, fli, "CleanRemoteDeviceCaches"):
 				steps["client-caches"] = c
-			case builtinName(&c.Call) == "delete" && strings.HasSuffix(Path(c.Call.Args[0]), ".remoteDevices"):
+			case builtinName(&c.Call) == "delete" && strings.HasSuffix(Path(c.Call.Args[0]), "."+FN("DeviceLocal.remoteDevices")):
 				steps["map-delete"] = c
 			}
 		})
